@@ -23,7 +23,8 @@ LEVEL = "exploration"
 TIERS = {"quick": {"shards": 16, "budget_s": 120, "audios": 40},
          "thorough": {"shards": 16, "budget_s": 900, "audios": 500}}
 CONTAINERS = ("bytes", "region_fn", "region_method", "wav", "wav_lazy", "wav_path_obj", "raw", "raw_lazy", "raw_fmt_noext",
-              "buffer_obj", "raw_obj", "wave_obj", "reader", "stdin_pipe")
+              "buffer_obj", "raw_obj", "wave_obj", "reader", "stdin_pipe", "wav_upper_ext", "raw_upper_ext", "recorder_second_pass",
+              "region_with_bogus_audio_kwargs", "microphone")
 SPELLINGS = ("long", "short", "both_wrong_short", "validator_long", "validator_both")
 RULE = ("For each synthesized/random audio and parameter set, split() is run on every container kind (bytes, AudioRegion via "
         "function and method, wav/raw file eager and lazy, Path, explicit format without extension, Buffer/Raw/Wave source "
@@ -53,7 +54,7 @@ def spelled(case, spelling, container):
     long_p = dict(analysis_window=case["w"], energy_threshold=case["thr"], use_channel=case["uc"])
     short_p = dict(aw=case["w"], eth=case["thr"], uc=case["uc"])
     wrong_p = dict(aw=case["w"] * 3, eth=case["thr"] + 25.0, uc=("mix" if case["uc"] != "mix" else None))
-    needs_audio = container in ("bytes", "raw", "raw_lazy", "raw_fmt_noext", "stdin_pipe")
+    needs_audio = container in ("bytes", "raw", "raw_lazy", "raw_fmt_noext", "stdin_pipe", "raw_upper_ext", "microphone")
     kw = dict(base)
     if spelling in ("long", "validator_long"):
         kw.update(long_p)
@@ -84,7 +85,7 @@ def spelled(case, spelling, container):
 def run_container(ctx, case, data, tmp, container, spelling, max_read, rng):
     rate, width, channels = case["rate"], case["width"], case["channels"]
     kw = spelled(case, spelling, container)
-    if max_read is not None and container not in ("reader", "region_method"):
+    if max_read is not None and container not in ("reader", "region_method", "recorder_second_pass"):
         if spelling == "short":
             kw["mr"] = max_read
         elif spelling in ("both_wrong_short", "validator_both"):
@@ -136,6 +137,43 @@ def run_container(ctx, case, data, tmp, container, spelling, max_read, rng):
             gen = auditok.split(path, **kw)
         else:
             gen = auditok.split(path, large_file=(container == "raw_lazy"), **kw)
+    elif container in ("wav_upper_ext", "raw_upper_ext"):
+        # file names as cameras and recorders write them: REC0001.WAV, take.Raw
+        ext = {"wav_upper_ext": (".WAV", ".Wav"), "raw_upper_ext": (".RAW", ".Raw")}[container][case["pcm_seed"] & 1]
+        path = os.path.join(tmp, "REC0001" + ext)
+        if container == "wav_upper_ext":
+            with wave.open(path, "wb") as fp:
+                fp.setframerate(rate)
+                fp.setsampwidth(width)
+                fp.setnchannels(channels)
+                fp.writeframes(data)
+            gen = auditok.split(path, large_file=bool(case["pcm_seed"] & 2), **kw)
+        else:
+            with open(path, "wb") as fp:
+                fp.write(data)
+            akw = dict(sampling_rate=rate, sample_width=width, channels=channels) if not any(k in kw for k in ("sr", "sampling_rate")) else {}
+            gen = auditok.split(path, large_file=bool(case["pcm_seed"] & 2), **kw, **akw)
+    elif container == "recorder_second_pass":
+        for k in ("analysis_window", "aw", "max_read", "mr"):
+            kw.pop(k, None)
+        rec = auditok.Recorder(data, block_dur=case["w"], max_read=max_read, sr=rate, sw=width, ch=channels)
+        for _ in auditok.split(rec, **kw):
+            pass
+        rec.rewind()
+        gen = auditok.split(rec, **kw)
+    elif container == "region_with_bogus_audio_kwargs":
+        # the caller reuses one kwargs dict for every input kind: a region's own parameters are the audio's
+        bogus = dict(sampling_rate=rate * 2 + 1, sample_width={1: 2, 2: 4, 4: 1}[width], channels=channels + 1)
+        for k in ("sr", "sw", "ch", "sampling_rate", "sample_width", "channels"):
+            kw.pop(k, None)
+        gen = auditok.split(AudioRegion(data, rate, width, channels), **kw, **bogus)
+    elif container == "microphone":
+        # input=None: the PyAudio path, driven through a stand-in device (PyAudio is not installed)
+        from .. import fakepyaudio
+
+        akw = {} if any(k in kw for k in ("sr", "sampling_rate")) else dict(sampling_rate=rate, sample_width=width, channels=channels)
+        with fakepyaudio.installed(data):
+            return sig(auditok.split(None, **kw, **akw), rate)
     elif container == "buffer_obj":
         gen = auditok.split(BufferAudioSource(data, rate, width, channels), **kw)
     elif container == "reader":
@@ -209,7 +247,7 @@ def run_audio(ctx, case, tmp, rng, thorough):
                 ctx.violation("reference-differs-from-model", {"case": cj, "observed": [(s, len(b) // bps) for s, b in ref_sigs[0]][:20], "expected": exp[:20]})
                 return
         for container in CONTAINERS:
-            if container == "reader" and case["w"] != case["block"] / rate:
+            if container in ("reader", "recorder_second_pass") and case["w"] != case["block"] / rate:
                 ctx.count("reader_container_skipped_block_shorter_than_window")
                 continue
             spellings = SPELLINGS if thorough else (rng.choice(SPELLINGS[:3]), rng.choice(SPELLINGS))
